@@ -156,6 +156,9 @@ def _encodings(ctx):
     rng = ctx.rng("encodings")
     n = ctx.budget(4000, 50000)
     fixed = {"ByteEncoding": 1, "UShortEncoding": 2, "UIntEncoding": 4}
+    packed = {"GInts": "gints", "Simple16": "s16"}
+    codec = {"ByteEncoding": "fixed1", "UShortEncoding": "fixed2", "UIntEncoding": "fixed4", "Varints": "varints",
+             "GInts": "gints", "Simple16": "s16"}
     reqs, metas = [], []
     for _ in range(n):
         name = rng.choice(["ByteEncoding", "UShortEncoding", "UIntEncoding", "Varints", "Varints", "Simple16", "GInts"])
@@ -170,8 +173,12 @@ def _encodings(ctx):
                 xs[rng.randrange(len(xs))] = 2 ** 28
         elif name == "GInts":
             xs = [min(pick_nat(rng), 2 ** 32 - 1) for _ in range(k)]
+            if rng.random() < 0.05 and xs:
+                xs[rng.randrange(len(xs))] = 2 ** 32 + rng.choice((0, 1, 2 ** 20))
         else:
             xs = [pick_nat(rng, 70) for _ in range(k)]
+        if rng.random() < 0.3:
+            xs.sort()       # ascending lists of every length: the delta variants below
         tail = b"\x09\xff" if rng.random() < 0.5 else b""
         enc = getattr(numlists, name)()
         st, f = _ramfile()
@@ -194,6 +201,9 @@ def _encodings(ctx):
             elif name in fixed:
                 reqs.append("c20 num fixed-write %d %s" % (fixed[name], fl(xs)))
                 metas.append(("werr", name, xs, None, None))
+            elif name in packed:
+                reqs.append("c20 num %s-write %s" % (packed[name], fl(xs)))
+                metas.append(("werr", name, xs, None, None))
             continue
         if not inrange:
             ctx.violation("%s.write_nums:accepts>maxint" % name, xs, "error", data.hex(), "numbers above maxint accepted")
@@ -209,16 +219,28 @@ def _encodings(ctx):
             sig = ("%s.read_nums:%s" % (name, back)) if isinstance(back, str) else "%s.read_nums(write_nums(x))!=x" % name
             ctx.violation(sig, xs, [xs, tail.hex()], [back, rest.hex()], "number list round trip")
         # delta variants
-        if xs == sorted(xs) and rng.random() < 0.3:
+        if xs == sorted(xs):
             st2, f2 = _ramfile()
+            data2 = None
             try:
                 enc.write_deltas(f2, xs)
+                f2.write(tail)
                 f2.close()
-                back2 = list(enc.read_deltas(st2.open_file("x"), len(xs)))
+                data2 = st2.open_file("x").read()
+                f2 = st2.open_file("x")
+                back2 = list(enc.read_deltas(f2, len(xs)))
+                rest2 = f2.read()
             except Exception as e:  # noqa
-                back2 = "raises-" + type(e).__name__
-            if back2 != xs:
-                ctx.violation("%s.read_deltas(write_deltas(x))!=x" % name, xs, xs, back2, "delta number list round trip")
+                back2, rest2 = "raises-" + type(e).__name__, b""
+            ctx.stat("encoding-deltas:%s:len=%d" % (name, min(len(xs), 5)))
+            if back2 != xs or rest2 != tail:
+                ctx.violation("%s.read_deltas(write_deltas(x))!=x" % name, xs, [xs, tail.hex()], [back2, rest2.hex()],
+                              "delta number list round trip")
+            elif data2 is not None:
+                reqs.append("c20 num deltas-write %s %s" % (codec[name], fl(xs)))
+                metas.append(("write_deltas", name, xs, None, sexp(data2[:len(data2) - len(tail)])))
+                reqs.append("c20 num deltas-read %s %d %s" % (codec[name], len(xs), sexp(data2)))
+                metas.append(("read_deltas", name, xs, None, "%s %s" % (fl(back2), sexp(rest2))))
         # random access
         if xs:
             i = rng.randrange(len(xs))
@@ -238,6 +260,11 @@ def _encodings(ctx):
             reqs.append("c20 num fixed-write %d %s" % (fixed[name], fl(xs)))
             metas.append(("write", name, xs, None, sexp(data[:len(data) - len(tail)])))
             reqs.append("c20 num fixed-read %d %d %s" % (fixed[name], len(xs), sexp(data)))
+            metas.append(("read", name, xs, None, "%s %s" % (fl(back) if not isinstance(back, str) else back, sexp(rest))))
+        elif name in packed:
+            reqs.append("c20 num %s-write %s" % (packed[name], fl(xs)))
+            metas.append(("write", name, xs, None, sexp(data[:len(data) - len(tail)])))
+            reqs.append("c20 num %s-read %d %s" % (packed[name], len(xs), sexp(data)))
             metas.append(("read", name, xs, None, "%s %s" % (fl(back) if not isinstance(back, str) else back, sexp(rest))))
         elif name == "Varints":
             reqs.append("c20 num varints-write %s" % fl(xs))
@@ -269,7 +296,110 @@ def _encodings(ctx):
             ctx.divergence("numlists.FixedEncoding.read_nums(truncated)", data.hex(), mo, got)
 
 
+def _packed(ctx):
+    """Direct streams for the packed codecs: Simple16._compress/_decompress one word at a time (any
+    offset into the input array, any 32-bit word), and GInts/Simple16.read_nums on arbitrary and on
+    truncated files (model `err` <=> the implementation raises; otherwise the same numbers and rest)."""
+    from whoosh.util import numlists
+    rng = ctx.rng("packed")
+    s16 = numlists.Simple16()
+    widths = sorted(set(w for ws in s16._bits for w in ws))
+    reqs, metas = [], []
+    for _ in range(ctx.budget(1500, 20000)):
+        k = rng.choice((1, 1, 2, 3, 4, 5, 6, 7, 8, 9, 13, 14, 15, 20, 21, 22, 27, 28, 29, 40))
+        w = rng.choice(widths)
+        xs = []
+        for _ in range(k):
+            r = rng.random()
+            if r < 0.7:      # a run that fits width w, so the layout choice depends on the few outliers
+                xs.append(rng.getrandbits(w) if rng.random() < 0.6 else (1 << w) - 1)
+            elif r < 0.95:
+                w2 = rng.choice(widths)
+                xs.append(rng.choice(((1 << w2) - 1, 1 << w2 if w2 < 28 else 0, rng.getrandbits(w2))))
+            else:
+                xs.append(rng.choice((2 ** 28 - 1, 2 ** 28, 2 ** 28 + 1, 2 ** 31, 2 ** 32)))
+        pre = [rng.getrandbits(30) for _ in range(rng.choice((0, 0, 1, 3)))]
+        try:
+            value, taken = s16._compress(pre + xs, len(pre), len(xs))
+            impl = "%d %d" % (value, taken)
+        except Exception:  # noqa
+            impl = "err"
+        ctx.case(("s16-compress", tuple(xs)), nontrivial=impl != "err" and len(xs) >= 2 and len(set(xs)) >= 2)
+        ctx.stat("s16-compress:key=%s" % (impl if impl == "err" else int(impl.split()[0]) >> 28))
+        reqs.append("c20 num s16-compress %s" % fl(xs))
+        metas.append(("Simple16._compress", xs, impl))
+        if impl != "err":
+            # end to end on the single word: the numbers taken come back
+            back = list(s16._decompress(value, len(xs)))
+            if back != xs[:taken]:
+                ctx.violation("Simple16._decompress(_compress(x))!=x", xs, xs[:taken], back, "one Simple16 word")
+    for _ in range(ctx.budget(600, 8000)):
+        value = (rng.randrange(16) << 28) | rng.getrandbits(28)
+        n = rng.choice((1, 2, 3, 5, 9, 14, 21, 28, 30))
+        impl = fl(list(s16._decompress(value, n)))
+        ctx.case(("s16-decompress", value, n), nontrivial=True)
+        reqs.append("c20 num s16-decompress %d %d" % (value, n))
+        metas.append(("Simple16._decompress", [value, n], impl))
+    # arbitrary / truncated files through read_nums
+    for _ in range(ctx.budget(600, 8000)):
+        name = rng.choice(("GInts", "Simple16"))
+        enc = getattr(numlists, name)()
+        n = rng.choice((0, 1, 2, 3, 4, 5, 8, 9))
+        style = rng.random()
+        if style < 0.5:
+            xs = [min(pick_nat(rng), enc.maxint) for _ in range(n)]
+            st, f = _ramfile()
+            enc.write_nums(f, xs)
+            f.close()
+            data = st.open_file("x").read()
+            data = data[:max(0, len(data) - rng.choice((1, 1, 2, 3)))]     # cut inside the last group
+        else:
+            data = bytes(rng.choice((0, 1, 3, 0x55, 0xaa, 0xe4, 0xff, rng.randrange(256)))
+                         for _ in range(rng.choice((0, 1, 2, 4, 5, 8, 11, 17, 40))))
+        st, f = _ramfile(data)
+        try:
+            got = list(enc.read_nums(f, n))
+            impl = "%s %s" % (fl(got), sexp(f.read()))
+        except Exception:  # noqa
+            impl = "err"
+        ctx.case(("packed-read", name, data, n), nontrivial=impl != "err" and n >= 2)
+        ctx.stat("packed-read:%s:%s" % (name, "err" if impl == "err" else "value"))
+        reqs.append("c20 num %s-read %d %s" % ({"GInts": "gints", "Simple16": "s16"}[name], n, sexp(data)))
+        metas.append(("%s.read_nums(arbitrary file)" % name, [data.hex(), n], impl))
+    # Simple16.get at every index (word boundaries included), the list written after a few foreign bytes
+    for _ in range(ctx.budget(150, 2000)):
+        k = rng.choice((1, 2, 5, 14, 15, 28, 29, 30, 45, 60))
+        w = rng.choice(widths)
+        xs = [rng.getrandbits(w) if rng.random() < 0.85 else rng.getrandbits(rng.choice(widths)) for _ in range(k)]
+        pre = bytes(rng.randrange(256) for _ in range(rng.choice((0, 0, 1, 4, 7))))
+        st, f = _ramfile()
+        f.write(pre)
+        s16.write_nums(f, xs)
+        f.close()
+        data = st.open_file("x").read()
+        ctx.case(("s16-get", tuple(xs), len(pre)), nontrivial=len(data) - len(pre) > 4)
+        for i in range(len(xs)):
+            f = st.open_file("x")
+            try:
+                got = s16.get(f, len(pre), i)
+            except Exception as e:  # noqa
+                got = "raises-" + type(e).__name__
+            if got != xs[i]:
+                sig = ("Simple16.get:%s" % got) if isinstance(got, str) else "Simple16.get(i)!=x[i]"
+                ctx.violation(sig, [xs, len(pre), i], xs[i], got, "NumberEncoding.get")
+            if not isinstance(got, str):    # a raising get is reported above; nothing to compare the model with
+                reqs.append("c20 num s16-get %s %d %d" % (sexp(data), len(pre), i))
+                metas.append(("Simple16.get", [xs, len(pre), i], str(got)))
+                ctx.stat("s16-get:%s" % ("first-word" if i < s16._num[data[len(pre) + 3] >> 4] else "later-word"))
+    outs = ctx.driver.ask(reqs)
+    for (comp, case, impl), mo in zip(metas, outs):
+        if mo != impl:
+            ctx.divergence("numlists." + comp, case, mo, impl)
+    ctx.sample({"s16-compress": metas[0][1], "model": outs[0]})
+
+
 def run(ctx):
     _delta(ctx)
     _growable(ctx)
     _encodings(ctx)
+    _packed(ctx)
